@@ -12,6 +12,8 @@ import (
 	"sort"
 	"strings"
 	"time"
+
+	"github.com/openconfig/goyang/pkg/zzsim"
 )
 
 // Fault kinds.
@@ -236,4 +238,39 @@ func (d *Disk) Opened() []string {
 		}
 	}
 	return out
+}
+
+// Stat implements zzsim.FileSystem.
+func (d *Disk) Stat(name string) (fs.FileInfo, error) {
+	p := Clean(name)
+	if content, ok := d.Files[p]; ok {
+		d.Log = append(d.Log, Access{Op: "stat", Path: p, OK: true})
+		return info{name: path.Base(p), size: int64(len(content))}, nil
+	}
+	prefix := p + "/"
+	if p == "." {
+		return info{name: ".", dir: true}, nil
+	}
+	for fp := range d.Files {
+		if strings.HasPrefix(fp, prefix) {
+			d.Log = append(d.Log, Access{Op: "stat", Path: p, OK: true})
+			return info{name: path.Base(p), dir: true}, nil
+		}
+	}
+	d.Log = append(d.Log, Access{Op: "stat", Path: p})
+	return nil, &fs.PathError{Op: "stat", Path: name, Err: fs.ErrNotExist}
+}
+
+// SeamComplete reports whether every file-system access of the library is
+// redirected to the simulated disk in the tree under test.  When the rewriter
+// met an access it cannot redirect (os.Open, filepath.Walk, ...) the drivers that
+// depend on the simulated disk discard their runs instead of misreading real
+// disk behaviour as a violation.
+func SeamComplete() bool {
+	for _, w := range zzsim.Warnings {
+		if strings.Contains(w, "is not redirected to the simulated disk") && strings.HasPrefix(w, "pkg/") {
+			return false
+		}
+	}
+	return true
 }
